@@ -59,6 +59,7 @@ type attempt struct {
 	MedianCall           string   `json:"burst_median_call,omitempty"`
 	BurstWall            string   `json:"burst_wall,omitempty"`
 	ReaderHeld           string   `json:"reader_held_between_lookup_and_send,omitempty"` // latehandoff
+	Companion            string   `json:"companion_call,omitempty"`                      // neverwithlongcall
 	Reuse                *attempt `json:"reused_fctx_request,omitempty"`                 // publishrefused: the next request with the same FContext
 }
 
@@ -281,7 +282,7 @@ func attemptAdapter(c c13case, body []byte) *attempt {
 	flags := &peerFlags{}
 	var blkW, blkF chan struct{}
 	var onceW, onceF, onceStop sync.Once
-	if strings.HasPrefix(c.Pattern, "blockwrite:") {
+	if strings.HasPrefix(c.Pattern, "blockwrite:") || strings.HasPrefix(c.Pattern, "slowwrite:") {
 		blkW = make(chan struct{})
 		st.BlockWrite = blkW
 	}
@@ -350,7 +351,7 @@ func attemptAdapter(c c13case, body []byte) *attempt {
 				}
 			case <-stop:
 			}
-		case c.Pattern == "blockwrite:5T":
+		case c.Pattern == "blockwrite:5T" || strings.HasPrefix(c.Pattern, "slowwrite:"):
 			select {
 			case <-writing:
 				if sleepOr(c.holdDelay(), stop) {
